@@ -42,7 +42,8 @@ warnings.simplefilter('ignore')
 NPROC = int(os.environ.get('VERIF_NPROC', '0')) or min(16, os.cpu_count() or 1)
 OUT_DIR = os.path.join(VERIF_DIR, 'out')
 REPLAY_DIR = os.path.join(OUT_DIR, 'replays')
-EVIDENCE_DIR = os.path.join(VERIF_DIR, 'evidence')
+# evidence of a run against a scratch copy (VERIF_REPO) never replaces the evidence of /repo itself
+EVIDENCE_DIR = os.path.join(VERIF_DIR, 'evidence') if os.path.realpath(REPO) == '/repo' else os.path.join(OUT_DIR, 'evidence-scratch')
 KNOWN_FINDINGS = os.path.join(VERIF_DIR, 'known_findings.json')
 
 MAX_VIOL_PER_SIG = 4       # kept per signature per shard
